@@ -150,6 +150,9 @@ def work(seed, count, exhaustive_n):
                 k = rng.randint(1, 4)
                 gs = [[(x.lower() if rng.random() < 0.3 else x) for x in letters[i::k][:rng.randint(1, 6)]] for i in range(k)]
                 cin.append((s, w, gs))
+                # a group may name a residue more than once (also in both cases): it still counts each residue once
+                c1, c2 = rng.choice(s), rng.choice(AA20)
+                cin.append((s, w, [[c1, c1.lower(), c2], [c2, c2, c1]]))
     run_checks(r, 'comp', chk_comp, cin)
     run_checks(r, 'delta_link', chk_delta_link, seqs[:count])
     return r
